@@ -330,12 +330,12 @@ theorem refine_j {a : Arch} {prog : List Bits} {s : VmState} {h : RtlState} {p :
   have hk := field_eq_part w a.maxWord a.opBits 0 a.o H.wlen (by omega)
   simp only [Nat.add_zero] at hk
   have hj := H.jumpIn rfl
-  simp [Isa.exec, hj] at hex
+  simp [Isa.exec, Isa.pipeOps, hj] at hex
   rw [← hex]
   apply rel_cycle
   rw [← rpc, fetch_eq H.fetch]
   simp only [Rtl.mainBlock, hcur]
-  simp [Rtl.unops, Rtl.binops]
+  simp [Rtl.unops, Rtl.binops, Rtl.pipeOps]
   refine ⟨?_, ?_, ?_⟩
   · simp only; exact hk
   · simp only [dregs]; exact rregs
@@ -357,7 +357,7 @@ theorem refine_jz {a : Arch} {prog : List Bits} {s : VmState} {h : RtlState} {p 
   have hw := H.width
   simp [coWidth] at hw
   simp only [Isa.exec] at hex
-  simp [hw, dregs] at hex
+  simp [Isa.pipeOps, hw, dregs] at hex
   cases hx : s.regs[Isa.field (w.drop a.opBits) 0 a.r]? with
   | none => simp [hx] at hex
   | some x =>
@@ -366,7 +366,7 @@ theorem refine_jz {a : Arch} {prog : List Bits} {s : VmState} {h : RtlState} {p 
     apply rel_cycle
     rw [← rpc, fetch_eq H.fetch]
     simp only [Rtl.mainBlock, hcur]
-    simp [Rtl.unops, Rtl.binops]
+    simp [Rtl.unops, Rtl.binops, Rtl.pipeOps]
     rw [← hk, ← rregs]
     simp only [hx, Option.getD_some]
     by_cases hz : x = 0
@@ -393,7 +393,7 @@ theorem refine_i2r {a : Arch} {prog : List Bits} {s : VmState} {h : RtlState} {p
   have hv := field_eq_part w a.maxWord a.opBits a.r a.inBits H.wlen (by omega)
   simp only [Nat.add_zero] at hk
   simp only [Isa.exec] at hex
-  simp [dregs, din] at hex
+  simp [Isa.pipeOps, dregs, din] at hex
   cases hx : s.inputs[Isa.field (w.drop a.opBits) a.r a.inBits]? with
   | none => simp [hx] at hex
   | some v =>
@@ -408,7 +408,7 @@ theorem refine_i2r {a : Arch} {prog : List Bits} {s : VmState} {h : RtlState} {p
       apply rel_cycle
       rw [← rpc, fetch_eq H.fetch]
       simp only [Rtl.mainBlock, hcur]
-      simp [Rtl.unops, Rtl.binops]
+      simp [Rtl.unops, Rtl.binops, Rtl.pipeOps]
       rw [← hk, ← hv, H.env]
       simp only [hilt, if_true, hx, Option.getD_some]
       refine ⟨?_, ?_, ?_⟩
@@ -431,7 +431,7 @@ theorem refine_r2o {a : Arch} {prog : List Bits} {s : VmState} {h : RtlState} {p
   have hv := field_eq_part w a.maxWord a.opBits a.r a.outBits H.wlen (by omega)
   simp only [Nat.add_zero] at hk
   simp only [Isa.exec] at hex
-  simp [dregs, dout] at hex
+  simp [Isa.pipeOps, dregs, dout] at hex
   cases hx : s.regs[Isa.field (w.drop a.opBits) 0 a.r]? with
   | none => simp [hx] at hex
   | some v =>
@@ -446,7 +446,7 @@ theorem refine_r2o {a : Arch} {prog : List Bits} {s : VmState} {h : RtlState} {p
       apply rel_cycle
       rw [← rpc, fetch_eq H.fetch]
       simp only [Rtl.mainBlock, hcur]
-      simp [Rtl.unops, Rtl.binops]
+      simp [Rtl.unops, Rtl.binops, Rtl.pipeOps]
       rw [← hk, ← hv, ← rregs]
       simp only [holt, if_true, hx, Option.getD_some]
       refine ⟨?_, ?_, ?_⟩
@@ -489,8 +489,17 @@ theorem instrLen_prunable (a : Arch) (op : String) (h : op ∈ Rtl.prunable) : a
   rcases h with rfl | rfl | rfl | rfl <;>
     simp [Arch.instrLen, declLayout, layout, modeOk, Arch.width] <;> omega
 
+theorem instrLen_pipe (a : Arch) (op : String) (h : op ∈ Rtl.pipeOps) : a.instrLen op = a.opBits + (a.r + a.r) := by
+  simp only [Rtl.pipeOps, List.mem_cons, List.not_mem_nil, or_false] at h
+  rcases h with rfl | rfl | rfl <;> simp [Arch.instrLen, declLayout, layout, modeOk, Arch.width]
+
+theorem prunable_not_pipe {op : String} (h : op ∈ Rtl.prunable) : op ∉ Rtl.pipeOps := by
+  simp only [Rtl.prunable, List.mem_cons, List.not_mem_nil, or_false] at h
+  rcases h with rfl | rfl | rfl | rfl <;> decide
+
 theorem onlyDestRegs_sound' (a : Arch) (prog : List Bits) (used : String → List Nat) (s : RtlState) (p : PortsIn)
     (hused : ∀ op k, k ∈ Rtl.destRegs a prog op → k ∈ used op)
+    (husedS : ∀ op k, k ∈ Rtl.srcRegs a prog op → k ∈ used (op ++ "/src"))
     (hws : a.wordSize = 0) (hlen : ∀ w ∈ prog, w.length = a.maxWord) (hpc : s.pc < prog.length) :
     Rtl.cycleOpt a used prog s p = Rtl.cycle a prog s p := by
   unfold Rtl.cycleOpt Rtl.cycle
@@ -522,7 +531,31 @@ theorem onlyDestRegs_sound' (a : Arch) (prog : List Bits) (used : String → Lis
         unfold Rtl.destRegs
         rw [List.mem_filterMap]
         exact ⟨w, hmem, by simp [hop, hk]⟩
-      simp [hin]
-    · simp [hp]
+      simp [hin, prunable_not_pipe hp]
+    · by_cases hq : op ∈ Rtl.pipeOps
+      · -- a pipelined opcode: both selected registers were recorded
+        have hfit : a.opBits + (a.r + a.r) ≤ a.maxWord := by
+          unfold Rtl.curOp at hc
+          have := instr_fits a hws hc
+          rw [instrLen_pipe a op hq] at this
+          exact this
+        have hop : a.ops[getId (w.take a.opBits)]? = some op := by
+          rw [opcode_eq_part w a.maxWord a.opBits hW (by omega)]; exact hc
+        have hk := field_eq_part w a.maxWord a.opBits 0 a.r hW (by omega)
+        have hs := field_eq_part w a.maxWord a.opBits a.r a.r hW (by omega)
+        simp only [Nat.add_zero, Isa.field, List.drop_zero] at hk
+        simp only [Isa.field] at hs
+        have hin : Rtl.part (getId w) a.maxWord a.opBits a.r ∈ used op := by
+          apply hused
+          unfold Rtl.destRegs
+          rw [List.mem_filterMap]
+          exact ⟨w, hmem, by simp [hop, hk]⟩
+        have hinS : Rtl.part (getId w) a.maxWord (a.opBits + a.r) a.r ∈ used (op ++ "/src") := by
+          apply husedS
+          unfold Rtl.srcRegs
+          rw [List.mem_filterMap]
+          exact ⟨w, hmem, by simp only [hop, if_true, Option.some.injEq]; rw [← hs, List.drop_drop]⟩
+        simp [hp, hin, hinS]
+      · simp [hp, hq]
 
 end BMV.Refine
